@@ -136,14 +136,14 @@ SP_RULE = ('random graphs of all 8 kinds (directed x multi-edge x self-loops) wi
 PROPS.update({
     'C04': dict(
         extra_modules=['GraphrsModel.Props.C04Model', 'GraphrsModel.Props.C08Api', 'GraphrsModel.Props.C04Paths', 'GraphrsModel.Props.C04PathsReach'],
-        gens=[('sp', 'small', 2500, 40000, 8), ('sp', 'parallel', 25, 300, 40)],
+        gens=[('sp', 'small', 2500, 40000, 8), ('sp', 'parallel', 60, 600, 40)],
         spec_fields=[r'ok\.ss', r'ok\.ms', r'ok\.ap'],
         model_fields=[r'build', r'ss', r'ms', r'ap'],
         nontrivial=sp_nontrivial, hist=sp_hist, rule=SP_RULE, assumptions=COMMON_ASSUME,
     ),
     'C08': dict(
         extra_modules=['GraphrsModel.Props.C04Model', 'GraphrsModel.Props.C08Api', 'GraphrsModel.Props.C04Paths', 'GraphrsModel.Props.C04PathsReach'],
-        gens=[('sp', 'small', 2500, 40000, 7), ('sp', 'parallel', 15, 200, 30)],
+        gens=[('sp', 'small', 2500, 40000, 7), ('sp', 'parallel', 80, 800, 30)],
         spec_fields=[r'ok\.ss', r'ok\.ms', r'ok\.ap', r'ok\.inv'],
         model_fields=[r'build', r'ss', r'ms', r'ap', r'inv'],
         nontrivial=sp_nontrivial, hist=sp_hist, rule=SP_RULE, assumptions=COMMON_ASSUME,
@@ -315,7 +315,7 @@ PROPS.update({
     'C16': dict(
         extra_modules=['GraphrsModel.Props.C16Store'],
         thorough_scale=1.5,
-        gens=[('complete', '-', 120, 600, 14), ('karate', '-', 1, 1, 0), ('gnp', 'small', 1500, 25000, 40), ('gnp', 'large', 40, 400, 300),
+        gens=[('complete', '-', 120, 600, 14), ('karate', '-', 1, 1, 0), ('gnp', 'small', 1500, 25000, 40), ('gnp', 'sparse', 4000, 60000, 40), ('gnp', 'large', 40, 400, 300),
               ('gnpstat', '-', 40, 300, 0)],
         translators=['karate'],
         spec_fields=[r'ok\.complete', r'ok\.karate', r'ok\.gnp'], model_fields=[r'nodes', r'edges'], impl_checks=[('same', '1')],
@@ -386,6 +386,7 @@ PROPS.update({
 
 PROPS.update({
     'C07': dict(
+        shrink_seconds=60, shrink_candidates=12,
         thorough_scale=1,
         gens=[('par', 'some', 40, 0, 0), ('par', 'all', 0, 120, 0)],
         translators=['parallel_sites', 'constants'],
